@@ -189,8 +189,10 @@ Proof.
   - eapply Forall_impl; [|exact G]. intros a Ha. apply Hd. exact Ha.
 Qed.
 
-(* ---- instance 2: the wide comparison (valid UTF-8, escapes) of Model/IriEqU.v ---- *)
-Definition idequ (a b : bytes) : bool := iri_equ a b false.
+(* ---- instance 2: the wide comparison of Model/IriEqU.v; [idequ a b] = iri_equ a b false is the definition of
+   Model/RecipU.v (one name for the one comparison C10, C16 and C20 instantiate with) ---- *)
+Require AP.Model.RecipU.
+Notation idequ := AP.Model.RecipU.idequ.
 Lemma idequ_sym a b : idequ a b = idequ b a.
 Proof. unfold idequ. apply (proj1 (proj2 (iri_equ_equivalence false))). Qed.
 Lemma idequ_trans a b c : iri_dom_u a = true -> iri_dom_u b = true -> iri_dom_u c = true ->
@@ -202,3 +204,12 @@ Definition u_idem := dom_idem idequ iri_dom_u idequ_sym idequ_trans.
 Definition u_idem_properties := dom_idem_properties idequ iri_dom_u idequ_sym idequ_trans.
 Definition u_flatten_no_panic := dom_flatten_no_panic idequ iri_dom_u idequ_sym idequ_trans.
 Definition u_recipients_total := dom_recipients_total idequ iri_dom_u idequ_sym idequ_trans.
+(* the remaining statements of the generic development for the wide comparison (builder b47) *)
+Definition u_refines_list := dom_refines_list idequ iri_dom_u idequ_sym idequ_trans.
+Definition u_flatten_list := dom_flatten_list idequ iri_dom_u idequ_sym idequ_trans.
+Definition u_idem_list := dom_idem_list idequ iri_dom_u idequ_sym idequ_trans.
+Definition u_flatten_value := dom_flatten_value idequ iri_dom_u idequ_sym idequ_trans.
+Definition u_idem_flatten := dom_idem_flatten idequ iri_dom_u idequ_sym idequ_trans.
+Definition u_entries := dom_entries idequ iri_dom_u idequ_sym idequ_trans.
+Definition u_no_new_iri := dom_no_new_iri idequ iri_dom_u idequ_sym idequ_trans.
+Definition u_closed := dom_closed idequ iri_dom_u idequ_sym idequ_trans.
